@@ -686,6 +686,12 @@ Result execOp(const H3Api &api, const Op &op, const ExecOpts &opts) {
             }
             n0 = (size_t)sz;
             B0.init(n0 * sizeof(H3Index));
+            if (int64_t dirty = argI(op, 2, 0)) {
+                // caller passes an output array that is not zero-filled (see gen.cc "+dirty-out")
+                H3Index *o = B0.as<H3Index>();
+                for (size_t i = 0; i < n0; i++)
+                    if (dirty == 1 || (i & 1)) o[i] = 0x8001fffffffffffULL + (i << 8);
+            }
             break;
         }
         case FN_polygonToCellsExperimental: {
